@@ -38,7 +38,7 @@ def accepted (nf : Int) : FArg → Bool
 structure Out where
   shape : List Int
   comps : List Bytes        -- component blocks (spatial block of n*8 bytes each)
-deriving Repr
+deriving Repr, DecidableEq
 
 def ncells (h : Hdr) : Int := (bcast h.lo h.hi).foldl (fun acc p => acc * (p.2 - p.1 + 1)) 1
 def spatial (h : Hdr) : List Int := (bcast h.lo h.hi).map fun p => p.2 - p.1 + 1
